@@ -36,6 +36,7 @@ func main() {
 	dumpReg := flag.Bool("registry", false, "debug: print the extracted registry")
 	dumpCFG := flag.String("cfg", "", "debug: print the CFG of a function")
 	dumpSCC := flag.Bool("sccs", false, "debug: print recursive call-graph components")
+	censusBudgetFlag := flag.Bool("census-budget", false, "maintenance: print the census site totals of the permitted functions on this tree as JSON (to be reviewed and saved as tables/census_budget.json)")
 	dumpLVal := flag.Bool("lvalwrites", false, "debug: survey LVal stores/appends/views")
 	flag.Parse()
 	debug.SetGCPercent(200)
@@ -44,6 +45,22 @@ func main() {
 		for _, id := range sortedKeys(ruleRegistry) {
 			fmt.Printf("%-28s floor=%-3d %s\n", id, ruleRegistry[id].Floor, ruleRegistry[id].Doc)
 		}
+		return
+	}
+	if *censusBudgetFlag {
+		c, err := Load(*repo, buildConfigs["default"])
+		if err != nil {
+			fmt.Println(err)
+			os.Exit(1)
+		}
+		for _, id := range sortedKeys(ruleRegistry) {
+			if strings.HasPrefix(id, "CENSUS.") || strings.HasPrefix(id, "CALLERS.") {
+				safeRun(ruleRegistry[id], c)
+			}
+		}
+		m, _ := c.memo["censusTotals"].(map[string]int)
+		b, _ := json.MarshalIndent(m, "", " ")
+		fmt.Println(string(b))
 		return
 	}
 	if *dumpLVal {
